@@ -135,7 +135,8 @@ fn unit_shape(r: &mut Rng, shape: u8, len: usize) -> Vec<f64> {
 /// `len` finite values with |x| <= 4.25*scale; strictly positive (>= 0.05*scale) when `positive`.
 pub fn gen_shape(r: &mut Rng, shape: u8, len: usize, scale: f64, positive: bool) -> Vec<f64> {
     let u = unit_shape(r, shape, len);
-    u.into_iter()
+    let mut v: Vec<f64> = u
+        .into_iter()
         .map(|x| {
             let x = x.clamp(-2.0, 2.0);
             if positive {
@@ -144,7 +145,41 @@ pub fn gen_shape(r: &mut Rng, shape: u8, len: usize, scale: f64, positive: bool)
                 scale * x
             }
         })
-        .collect()
+        .collect();
+    if !positive {
+        // a negative zero is a finite input too: half of the exact zeros of a signed stream carry the sign bit
+        let mut bits = r.next_u64();
+        let mut left = 64;
+        for x in v.iter_mut() {
+            if *x == 0.0 {
+                if left == 0 {
+                    bits = r.next_u64();
+                    left = 64;
+                }
+                if bits & 1 == 1 {
+                    *x = -0.0;
+                }
+                bits >>= 1;
+                left -= 1;
+            }
+        }
+    }
+    v
+}
+
+/// stream lengths for the rare long runs: logic that only engages after thousands of updates tends to sit
+/// at round thresholds (4096, 2^16, 2^17, 2^20), so the classes straddle those
+pub fn long_len(r: &mut Rng) -> usize {
+    let x = r.unit();
+    if x < 0.5 {
+        r.range(4_200, 20_000)
+    } else if x < 0.75 {
+        r.range(66_000, 80_000)
+    } else if x < 0.9 {
+        r.range(132_000, 150_000)
+    } else {
+        r.range(1_050_000, 1_100_000)
+    }
 }
 
 /// like gen_shape, for a sign class: Any = signed values with zeros, NonNeg = magnitudes with the exact
@@ -154,7 +189,7 @@ pub fn gen_signed(r: &mut Rng, shape: u8, len: usize, scale: f64, sign: crate::s
     match sign {
         Sign::Positive => gen_shape(r, shape, len, scale, true),
         Sign::Any => gen_shape(r, shape, len, scale, false),
-        Sign::NonNeg => gen_shape(r, shape, len, scale, false).into_iter().map(|x| x.abs()).collect(),
+        Sign::NonNeg => gen_shape(r, shape, len, scale, false).into_iter().map(|x| if x == 0.0 { x } else { x.abs() }).collect(),
     }
 }
 
